@@ -99,7 +99,6 @@ var c03Entries = []c03Entry{
 	{pSniffQUIC, "ReadCryptoPayload"},
 	{pObfs, "(*obfsPacketConn).ReadFrom"}, {pObfs, "(*obfsPacketConn).WriteTo"},
 	{pObfs, "(*geckoPacketConn).ReadFrom"}, {pObfs, "(*geckoPacketConn).WriteTo"},
-	{pObfs, "decodeFrame"}, {pObfs, "encodeFrame"},
 	{pRealm, "DecodePunchPacket"}, {pRealm, "EncodePunchPacket"}, {pRealm, "(*PunchPacketConn).ReadFrom"}, {pRealm, "parseSTUNBindingResponse"},
 	{pSpeedtest, "server"},
 	{pUtils, "(*QStream).Read"},
@@ -111,6 +110,9 @@ var c03Optional = []c03Entry{
 	{pOutbounds, "(*socks5UDPConn).ReadFrom"}, {pOutbounds, "(*socks5UDPConn).WriteTo"},
 	{pRealm, "(*ServerPuncher).dispatch"}, {pRealm, "(*PunchPacketConn).handlePunchPacket"},
 	{pObfs, "(*geckoPacketConn).handleInbound"},
+	// reachable from the gecko ReadFrom / WriteTo entries anyway; named here only so that a tree where the
+	// call graph loses them still covers them
+	{pObfs, "decodeFrame"}, {pObfs, "encodeFrame"},
 }
 
 func c03Scope(c *Check) map[*ssa.Function]bool {
@@ -422,6 +424,9 @@ func (l *c03Lifter) verify(fn *ssa.Function, pre lin, what string, depth int) (b
 			return false, "called from an unknown site"
 		}
 		caller := e.Caller.Func
+		if caller.Synthetic != "" && len(e.Caller.In) == 0 {
+			continue // promoted-method / bound-method wrapper that nothing calls
+		}
 		if !l.p.IsRepoFn(caller) {
 			return false, "called from outside the repository (" + caller.String() + ")"
 		}
@@ -486,9 +491,15 @@ func (l *c03Lifter) verify(fn *ssa.Function, pre lin, what string, depth int) (b
 		key := l.prefix + ":" + fnName(fn) + "@" + fnName(caller) + ":" + what
 		pos := l.p.InstrPos(e.Site)
 		if !okSub {
+			if os.Getenv("HV_LIFT_DEBUG") != "" {
+				fmt.Fprintf(os.Stderr, "lift %s@%s (%s): precondition %s: argument not resolvable\n", fnName(fn), fnName(caller), what, pre.String())
+			}
 			return false, "argument not resolvable at " + pos
 		}
 		ok, pres2 := clp.ProveOrLift(e.Site, sub, linConst(0))
+		if !ok && os.Getenv("HV_LIFT_DEBUG") != "" {
+			fmt.Fprintf(os.Stderr, "lift %s@%s (%s): %s", fnName(fn), fnName(caller), what, clp.DebugFacts(e.Site, sub, linConst(0)))
+		}
 		if !ok && depth < 2 {
 			for _, pre2 := range pres2 {
 				if ok, _ = l.verify(caller, pre2, what, depth+1); ok {
